@@ -163,69 +163,69 @@ impl Pair {
 
     /// One honest round for a well-formed plan; oracle on the immediate results.
     pub fn round(&mut self, plan: &Plan) -> Result<RoundResult, Fail> {
-        let req = self.replica.make_request(plan)?;
-        let proof = match create_proof(self.writer.core(), &req) {
-            Err(p) => return Err(fail(format!("create_proof:panic:{}", exec::panic_sig(&p)), format!("{p}; request {req:?}"))),
-            Ok(Err(e)) => return Err(fail(format!("create_proof:err:{}", ops::err_sig(&e)), format!("create_proof refused a well-formed request {req:?}: {e}"))),
-            Ok(Ok(None)) => {
-                let cleared = plan.block.map(|i| self.writer.model.get(i).is_none()).unwrap_or(false);
-                if cleared {
-                    return Ok(RoundResult::NoProofCleared);
-                }
-                return Err(fail("create_proof:none-unexpected", format!("create_proof returned None for {req:?} although the block is held")));
-            }
-            Ok(Ok(Some(p))) => p,
-        };
-        if let Some(i) = plan.block {
-            if self.writer.model.get(i).is_none() {
-                return Err(fail("create_proof:proof-for-cleared-block", format!("writer produced a proof for cleared block {i}")));
-            }
-        }
-        match apply_proof(self.replica.core(), &proof) {
-            Err(p) => Err(fail(format!("verify:panic:{}", exec::panic_sig(&p)), format!("{p}; request {req:?}"))),
-            Ok(Err(e)) => Err(fail(format!("verify:err:{}", ops::err_sig(&e)), format!("replica rejected an honest proof for {req:?}: {e}"))),
-            Ok(Ok(false)) => Err(fail("verify:refused-false", format!("replica answered false to an honest proof for {req:?}"))),
-            Ok(Ok(true)) => {
-                let w = self.writer.model.clone();
-                self.replica.model_accept(&proof, &w);
-                Ok(RoundResult::Applied(proof))
-            }
-        }
+        round(&mut self.writer, &mut self.replica, plan)
     }
 
     /// Fetch everything the replica is still missing; must terminate with replica == writer on
     /// all non-cleared blocks.
     pub fn complete(&mut self) -> Result<u64, Fail> {
-        let mut rounds = 0;
-        let wl = self.writer.model.length();
-        let rl = self.replica.model.length();
-        if rl < wl {
-            self.round(&Plan {
-                upgrade: Some(wl - rl),
-                ..Default::default()
-            })
-            .map_err(|f| fail(format!("complete:{}", f.sig), f.detail))?;
+        complete(&mut self.writer, &mut self.replica)
+    }
+}
+
+pub fn round(writer: &mut Sut, replica: &mut Replica, plan: &Plan) -> Result<RoundResult, Fail> {
+    let req = replica.make_request(plan)?;
+    let proof = match create_proof(writer.core(), &req) {
+        Err(p) => return Err(fail(format!("create_proof:panic:{}", exec::panic_sig(&p)), format!("{p}; request {req:?}"))),
+        Ok(Err(e)) => return Err(fail(format!("create_proof:err:{}", ops::err_sig(&e)), format!("create_proof refused a well-formed request {req:?}: {e}"))),
+        Ok(Ok(None)) => {
+            let cleared = plan.block.map(|i| writer.model.get(i).is_none()).unwrap_or(false);
+            if cleared {
+                return Ok(RoundResult::NoProofCleared);
+            }
+            return Err(fail("create_proof:none-unexpected", format!("create_proof returned None for {req:?} although the block is held")));
+        }
+        Ok(Ok(Some(p))) => p,
+    };
+    if let Some(i) = plan.block {
+        if writer.model.get(i).is_none() {
+            return Err(fail("create_proof:proof-for-cleared-block", format!("writer produced a proof for cleared block {i}")));
+        }
+    }
+    match apply_proof(replica.core(), &proof) {
+        Err(p) => Err(fail(format!("verify:panic:{}", exec::panic_sig(&p)), format!("{p}; request {req:?}"))),
+        Ok(Err(e)) => Err(fail(format!("verify:err:{}", ops::err_sig(&e)), format!("replica rejected an honest proof for {req:?}: {e}"))),
+        Ok(Ok(false)) => Err(fail("verify:refused-false", format!("replica answered false to an honest proof for {req:?}"))),
+        Ok(Ok(true)) => {
+            let w = writer.model.clone();
+            replica.model_accept(&proof, &w);
+            Ok(RoundResult::Applied(proof))
+        }
+    }
+}
+
+pub fn complete(writer: &mut Sut, replica: &mut Replica) -> Result<u64, Fail> {
+    let mut rounds = 0;
+    let wl = writer.model.length();
+    let rl = replica.model.length();
+    if rl < wl {
+        round(writer, replica, &Plan { upgrade: Some(wl - rl), ..Default::default() }).map_err(|f| fail(format!("complete:{}", f.sig), f.detail))?;
+        rounds += 1;
+    }
+    for i in 0..wl {
+        if replica.model.get(i).is_none() && writer.model.get(i).is_some() {
+            round(writer, replica, &Plan { block: Some(i), ..Default::default() }).map_err(|f| fail(format!("complete:{}", f.sig), f.detail))?;
             rounds += 1;
         }
-        for i in 0..wl {
-            if self.replica.model.get(i).is_none() && self.writer.model.get(i).is_some() {
-                self.round(&Plan {
-                    block: Some(i),
-                    ..Default::default()
-                })
-                .map_err(|f| fail(format!("complete:{}", f.sig), f.detail))?;
-                rounds += 1;
-            }
-        }
-        for i in 0..wl {
-            let a = self.replica.model.get(i);
-            let b = self.writer.model.get(i);
-            if b.is_some() && a != b {
-                return Err(fail("complete:not-converged", format!("block {i} differs after completion")));
-            }
-        }
-        Ok(rounds)
     }
+    for i in 0..wl {
+        let a = replica.model.get(i);
+        let b = writer.model.get(i);
+        if b.is_some() && a != b {
+            return Err(fail("complete:not-converged", format!("block {i} differs after completion")));
+        }
+    }
+    Ok(rounds)
 }
 
 /// Shape class of a plan (for coverage accounting).
